@@ -312,6 +312,11 @@ impl<T: HCfg> World<T> {
                             .collect::<Vec<_>>()),
                     );
                     line.insert("buf".into(), Value::Object(bufs));
+                    // further getters of the public API
+                    line.insert(
+                        "gt".into(),
+                        json!([s.num_players(), s.num_spectators(), s.max_prediction(), s.in_lockstep_mode()]),
+                    );
                     // the handle getters of the public API, as returned
                     line.insert(
                         "hl".into(),
@@ -349,6 +354,10 @@ impl<T: HCfg> World<T> {
                 line.insert("cur".into(), json!(s.current_frame()));
                 line.insert("run".into(), json!(s.current_state() == SessionState::Running));
                 line.insert("lrf".into(), json!(snap.last_recv_frame));
+                // public getters: frames_behind_host() (asserts last_recv_frame >= current_frame), num_players()
+                let fbh = catch_unwind(AssertUnwindSafe(|| s.frames_behind_host() as i64)).unwrap_or(-1000);
+                line.insert("fbh".into(), json!(fbh));
+                line.insert("npl".into(), json!(s.num_players()));
                 line.insert("evq".into(), json!(snap.evq));
                 line.insert(
                     "st".into(),
